@@ -39,31 +39,36 @@ func (m *ResourceManager[T]) VerifC17QueuedData() []T {
 	return out
 }
 
-// VerifC17RequestPaused is Request with one extra scheduling point: `between` runs after the request
-// has been handed to the manager and before the caller starts waiting for the answer. The statements
-// are the statements of Request, verbatim; a goroutine descheduled between Request's two selects
-// behaves exactly like this. The C17 harness uses it to make the schedule "manager evaluates
-// handleRequest's select before the caller reaches its inner select" deterministic.
-func (m *ResourceManager[T]) VerifC17RequestPaused(key string, data T, n int64, notifyC chan T, cancelC chan struct{}, between func()) (acquired bool) {
-	if n < 0 {
-		return
-	}
-	r := request[T]{
-		key:     key,
-		data:    data,
-		n:       n,
-		notifyC: notifyC,
-		cancelC: cancelC,
-		doneC:   make(chan bool),
-	}
+// VerifC17HoldManager parks the manager goroutine inside its stats case (it is blocked sending the
+// answer to a Stats caller that is slow to receive) and returns the function that lets it continue.
+// While the manager is held, callers of the real Request/Release park on the manager's channels; when it
+// continues it is the running goroutine and handles them before they run again. Returns nil after Close.
+func (m *ResourceManager[T]) VerifC17HoldManager() (resume func()) {
+	ch := make(chan Stats)
 	select {
-	case m.requestC <- r:
-		between()
-		select {
-		case acquired = <-r.doneC:
-		case <-m.closeC:
-		}
+	case m.statsC <- ch:
+		return func() { <-ch }
 	case <-m.closeC:
+		return nil
 	}
-	return
+}
+
+// VerifC17PeekPick evaluates randomRequest() the way the run loop did before it blocked. Only used in
+// configurations with at most one queued request per key (rand.IntN(1) == 0), where it equals the
+// request the blocked manager is currently offering / listening to.
+func (m *ResourceManager[T]) VerifC17PeekPick() (key string, n int64, ok bool) {
+	r, i := m.randomRequest()
+	if i < 0 {
+		return "", 0, false
+	}
+	return r.key, r.n, true
+}
+
+// VerifC17KeyOrder returns the pending keys in the order `range m.requests` yields them.
+func (m *ResourceManager[T]) VerifC17KeyOrder() []string {
+	var out []string
+	for k := range m.requests {
+		out = append(out, k)
+	}
+	return out
 }
